@@ -141,8 +141,11 @@ def t4(ctx):
             ctx.violate(im['self_ty'], None, 'unsafe impl %s for %s lost its `T: Send` bound: safe code could move a non-Send value across threads (predicates: %s)' % (tr, im['self_ty'], im['preds']), at=im.get('span'), sig='bound:' + tr)
     for key in EXPECTED_IMPLS:
         if key not in seen:
-            # the impl was removed: handles would stop being Send - caught by T1; report the anchor
-            ctx.violate(key[1], None, 'anchor missing: expected `unsafe impl<T: Send> %s for %s` not found' % key, sig='impl-missing')
+            # the explicit impl is gone.  Whether the type is still Send exactly for T: Send is a question for the compiler, and it
+            # is asked: T1 (every handle / future is Send[+Sync] for T: Send) and T2/T3 (nothing crosses threads for a !Send T) are
+            # compiler verdicts on the current tree.  An impl that was redundant (the auto trait derives the same answer from the
+            # fields) may be removed; an impl that was needed makes T1 fail.
+            ctx.note('explicit `unsafe impl<T: Send> %s for %s` no longer present: the verdicts of T1-T3 decide' % key)
     # fields that carry the payload by raw pointer must stay behind these impls: PhantomPinned present in both futures
     if ctx.has_async():
         for nm in ('future::SendFuture', 'future::ReceiveFuture'):
